@@ -85,6 +85,10 @@ func runUnlikely(c Case, e *env) []Event {
 	}
 	for i := range marks {
 		inner := chunks(g, marks[i].words)
+		if r.Intn(3) == 0 {
+			// the marked subtree is a cluster of links (typical chrome) instead of article-like text
+			inner = g.linkCluster(3 + marks[i].words/40)
+		}
 		if marks[i].tag == "ul" {
 			inner = "<li>" + inner + "</li>"
 		}
